@@ -130,7 +130,7 @@ def cases(tier, rng):
                     "layout_seed": int(rng.integers(1 << 30)),
                 }
             )
-    nplane = 5 if tier == "quick" else 90
+    nplane = 4 if tier == "quick" else 90
     for i in range(nplane):
         out.append(
             {
@@ -140,7 +140,7 @@ def cases(tier, rng):
                 "layout_seed": int(rng.integers(1 << 30)),
             }
         )
-    ntwo = 3 if tier == "quick" else 30
+    ntwo = 2 if tier == "quick" else 30
     for i in range(ntwo):
         out.append(
             {"kind": "two_devices", "n": 12, "device_kind": PLANE_DEVICE_KINDS[i % len(PLANE_DEVICE_KINDS)], "layout_seed": int(rng.integers(1 << 30))}
